@@ -1218,11 +1218,11 @@ def cases_for(params):
     for name, a, b in LAYOUTS:
         cases.append(dict(base, family="roundtrip", layout={"name": name, "a": a, "b": b}, seed=rng.getrandbits(48),
                           reps=1 if tier == "quick" else 3))
-    nrand = {"quick": 10, "thorough": 300, "thorough-purepy": 60}[tier]
+    nrand = {"quick": 10, "thorough": 200, "thorough-purepy": 50}[tier]
     for _ in range(nrand):
         cases.append(dict(base, family="roundtrip", layout=random_layout(rng), seed=rng.getrandbits(48), reps=1))
     # --- fault enumeration on matched layouts
-    nf = {"quick": 3, "thorough": 24, "thorough-purepy": 4}[tier]
+    nf = {"quick": 3, "thorough": 12, "thorough-purepy": 4}[tier]
     sizes = ["small", "medium", "medium"] if tier == "quick" else ["small", "medium", "large", "medium"]
     for k in range(nf):
         li = FAULT_LAYOUTS[(ci + 2 * fwi + seed + k) % len(FAULT_LAYOUTS)]
